@@ -25,16 +25,15 @@ Verdict(e) ==
   THEN "FAIL:exception_type:"
   ELSE IF ~AllOk(e) /\ ~NoneOk(e) THEN "FAIL:order_dependent_acceptance:" \o Sig(e)
   ELSE IF AllOk(e) /\ ~e.eq_all THEN "FAIL:order_dependent_result:" \o Sig(e)
-  ELSE IF AllOk(e) /\ (\A j \in DOMAIN e.outs : e.outs[j].rep)
-          /\ \E j \in DOMAIN e.outs : e.outs[j].result # e.outs[1].result
-  THEN "FAIL:order_dependent_props:" \o Sig(e)
   ELSE "OK"
 
 BaseOf(e) == IF IsSome(e.base) THEN Apply(Bare(e.ty), Get(e.base)).s ELSE Bare(e.ty)
 ChainOf(e, j) == [n \in DOMAIN e.perms[j] |-> e.refs[e.perms[j][n]]]
 
 Drift(e) ==
-  \E j \in DOMAIN e.outs :
+  \/ AllOk(e) /\ (\A j \in DOMAIN e.outs : e.outs[j].rep)
+     /\ \E j \in DOMAIN e.outs : e.outs[j].result # e.outs[1].result      \* == equal, props not identical
+  \/ \E j \in DOMAIN e.outs :
      LET r == ApplyChain(BaseOf(e), ChainOf(e, j)) IN
      \/ r.ok # (e.outs[j].exc = "")
      \/ r.ok /\ e.outs[j].rep /\ Some(r.s) # e.outs[j].result
